@@ -222,10 +222,18 @@ class Env:
 
     def lookup(self, name):
         e = self
+        root = self
         while e is not None:
             if name in e.vars:
                 return e.vars[name]
+            root = e
             e = e.parent
+        fb = root.vars.get('__fallback__')
+        if fb is not None:
+            v = fb(name, root)
+            if v is not NotImplemented:
+                root.vars[name] = v
+                return v
         raise OutOfSubset(f'unmodelled global name {name!r}')
 
     def has(self, name):
